@@ -46,7 +46,7 @@ def main():
         if tests:
             t = tests[0]
             m = re.search(r"cp\s+\S*" + re.escape(os.path.basename(t)) + r"\s+(\S+)", readme)
-            target = m.group(1).replace(orig_repo, w) if m else w
+            target = m.group(1).replace(orig_repo, w).replace("<repo>", w).replace("$REPO", w) if m else w
             if not target.startswith(w):
                 m2 = re.search(r"[Cc]opy\S*\s+.*?(?:to|into)\s+[`'\"]?(\S*?repo/\S*?)[`'\" ,)]", readme)
                 target = m2.group(1).replace(orig_repo, w) if m2 else w
